@@ -1,6 +1,25 @@
 // Unit c28_local_ids -- property C28 "Addresses and identifiers have lossless, network-bound text forms"
-// (the non-fungible LOCAL ID part: validation constructors, canonical integer text, id-type tags)
-// Real code: radix-common/src/data/scrypto/model/non_fungible_local_id.rs
+// Real code (all bodies extracted verbatim on every run; 42 functions):
+//   radix-common/src/data/scrypto/model/non_fungible_local_id.rs
+//     StringNonFungibleLocalId::{validate_slice, new, value, as_bytes}, TryFrom<String>, TryFrom<&str>
+//     IntegerNonFungibleLocalId::{new, value}, From<u64>;  RUIDNonFungibleLocalId::{new, value}, From<[u8; 32]>
+//     BytesNonFungibleLocalId::{validate, new, value}, TryFrom<Vec<u8>>
+//     NonFungibleLocalId::{string, integer, bytes, ruid, const_string, const_integer, const_bytes, const_ruid, id_type,
+//       encode_body_common, decode_body_common, to_vec}, From<the four id structs>, From<u64>, From<[u8; 32]>,
+//       TryFrom<String>, TryFrom<Vec<u8>>;  fn is_canonically_formatted_integer (private; text form of integer ids)
+//   radix-common/src/address/{hrpset,decoder,encoder}.rs
+//     HrpSet::get_entity_hrp, AddressBech32Decoder::{validate_and_decode_ignore_hrp, validate_and_decode},
+//     AddressBech32Encoder::{encode, encode_to_fmt}
+// Strings: this vstd models `str` as Seq<char> with `str::as_bytes(s) == vstd::utf8::encode_utf8(s@)`, so the
+//   byte-level validation is tied to the CHARACTER-level grammar by lemmas proved here (lemma_scalar, lemma_utf8,
+//   lemma_string_bridge): no "ASCII only" restriction on the inputs of `new` / `string` / `const_string`.
+// Not in this unit (string formatting / third-party code): `impl FromStr` and `impl Display` for NonFungibleLocalId
+//   (bounded Kani harnesses in kani/c28_h), to_key (scrypto_encode of the whole payload), NonFungibleGlobalId,
+//   the Bech32m codec itself (bech32 crate; encoder.rs :: bech32_encode_to_fmt / bech32_check_hrp are copies of
+//   crate code and are part of the uninterpreted codec model), `From<&NetworkDefinition> for HrpSet` (format!),
+//   EntityType::from_repr (strum derive), the typed address wrappers (macro-generated).
+// @subst (4, all notational): `.map(Self::String)` and `.map_err(Variant)` x2 eta-expanded (Verus rejects constructor
+//   functions as values); `u64::{to,from}_be_bytes` routed through env fns with the std contract.
 use vstd::prelude::*;
 verus! {
 /*@include shims/rt.rs @*/
